@@ -464,10 +464,10 @@ def _interleave(a, b):
 
 def plan(tier, seed):
     if tier == "quick":
-        return _interleave([{"task": "crash", "examples": 32} for _ in range(10)],
-                           [{"task": "roundtrip", "examples": 300} for _ in range(6)])
-    return _interleave([{"task": "crash", "examples": 1200} for _ in range(16)],
-                       [{"task": "roundtrip", "examples": 10000} for _ in range(8)])
+        return _interleave([{"task": "roundtrip", "examples": 300} for _ in range(6)],
+                           [{"task": "crash", "examples": 32} for _ in range(10)])
+    return _interleave([{"task": "roundtrip", "examples": 10000} for _ in range(8)],
+                       [{"task": "crash", "examples": 1200} for _ in range(16)])
 
 
 def run_task(ctx, task, **kw):
